@@ -298,6 +298,8 @@ func checkC04(r *Report) {
 		}
 	}
 	r.floor("C04.7/NIL-SPAN", "dereferences of span.min/max in package semver", len(okN)+len(badN), 15)
+	// ---- C04.8
+	errNilRule(r, p, "C04.8/ERR-NIL")
 }
 
 func derefName(in ssa.Instruction) string {
